@@ -28,3 +28,11 @@ func (r *Rng) Chance(num, den int) bool { return r.Intn(den) < num }
 func (r *Rng) Fork() *Rng { return NewRng(r.U64()) }
 
 func Pick[T any](r *Rng, xs []T) T { return xs[r.Intn(len(xs))] }
+
+// Read makes an Rng usable where an io.Reader of random bytes is wanted.
+func (r *Rng) Read(p []byte) (int, error) {
+	for i := range p {
+		p[i] = byte(r.U64())
+	}
+	return len(p), nil
+}
